@@ -271,6 +271,10 @@ def run(chk: Check, eng: Engine) -> None:
     chk.rule("R11-i", "the hash of every symbol class carries the symbol kind (tree hashes - the identity all caches rely on - are built from hash(symbol))", floor=2)
     from .c10 import symbol_hash_rule
     symbol_hash_rule(chk, eng, "R11-i")
+    chk.rule("R11-k", "in every loop of the evaluator over its constraints, constraint.fitness(tree) is called on every path through the loop body", floor=1)
+    every_constraint_is_asked_rule(chk, eng, "R11-k")
+    chk.rule("R11-l", "no constraint object is duplicated by a shallow copy (the duplicate would share the verdict memo)", floor=1)
+    shared_cache_rule(chk, eng, "R11-l")
     chk.rule("R11-j", "no function the evaluation of a constraint reaches is memoised by a decorator whose key leaves out something the function reads", floor=1)
     from .common_memo import decorated_memo_rule
     decorated_memo_rule(chk, eng, "R11-j", [f.fq for f in eng.ix.all_functions if f.name in ("fitness", "check") and f.module.startswith("fandango.constraints")], "constraint verdicts")
@@ -391,6 +395,72 @@ def fresh_result_rule(chk: Check, eng: Engine) -> None:
                                     keyparts=f"shared-result|{callee.name}|{idx}")
     if n_sites < 2:
         raise AnalysisError(f"only {n_sites} in-place mutation(s) of helper results found in the evaluator")
+
+
+def every_constraint_is_asked_rule(chk: Check, eng: Engine, rule: str) -> None:
+    """R11-k.  A cached evaluation can only equal a fresh one if an evaluation *is* one: in every loop of the evaluator over its constraints the
+    constraint's `fitness(<tree>)` is called on every path through the loop body.  A path that skips the call because of something the
+    evaluator remembers about the *constraint* (it raised before, it was satisfied last time) makes the verdict of a tree depend on which trees
+    were evaluated earlier - state that no tree-keyed memo key covers."""
+    n = 0
+    for modn, cn in (("fandango.evolution.evaluation", "Evaluator"), ("fandango.evolution.evaluation", "IoEvaluator")):
+        cls = eng.cls(modn, cn)
+        for m in cls.methods.values():
+            loops = [lp for lp in walk_local(m.node) if isinstance(lp, ast.For) and isinstance(lp.target, ast.Name)
+                     and any(isinstance(c, ast.Call) and isinstance(c.func, ast.Attribute) and c.func.attr == "fitness" and isinstance(c.func.value, ast.Name) and c.func.value.id == lp.target.id
+                             for c in ast.walk(lp))]
+            if not loops:
+                continue
+            cfg = eng.cfg(m)
+            for lp in loops:
+                heads = cfg.nodes_of(lp, {"for"})
+                if not heads:
+                    continue
+                head = heads[0]
+                calls = [nd.id for nd in cfg.nodes if nd.kind == "stmt" and nd.ast is not None and any(
+                    isinstance(c, ast.Call) and isinstance(c.func, ast.Attribute) and c.func.attr == "fitness" and isinstance(c.func.value, ast.Name) and c.func.value.id == lp.target.id
+                    for c in ast.walk(nd.ast)) and any(nd.ast is x or any(nd.ast is y for y in ast.walk(x)) for x in lp.body)]
+                n += 1
+                # from the loop head through the body back to the head without asking the constraint
+                p = None
+                for b, lab in cfg.succ[head]:
+                    if lab not in ("loop", "true"):
+                        continue
+                    if b in calls:
+                        continue
+                    q = [(b, "true")] if any(s_ == head for s_, _ in cfg.succ[b]) else cfg.find_path(b, [head], avoid=calls)
+                    if q is not None:
+                        p = q
+                if p is None and calls:
+                    chk.ok(rule, m.fq, lp.lineno, f"`for {lp.target.id} in {short(lp.iter, 30)}`: {lp.target.id}.fitness(...) is called on every path through the loop body")
+                else:
+                    chk.bad(rule, eng.relfile(m), lp.lineno, m.fq, f"`for {lp.target.id} in {short(lp.iter, 30)}` has a path through its body that does not call {lp.target.id}.fitness(...)",
+                            "whether a constraint is evaluated for a tree depends on what the evaluator remembers from earlier trees (a constraint that raised once for a short tree is "
+                            "never asked again): the same tree gets another verdict from a fresh evaluator", path=cfg.describe_path(p) if p else [], keyparts=f"constraint-skipped|{m.qualname}")
+    if n < 1:
+        raise AnalysisError("no loop over constraints calling fitness() found in the evaluators")
+
+
+def shared_cache_rule(chk: Check, eng: Engine, rule: str) -> None:
+    """R11-l.  The verdict memo (`self.cache`) belongs to one constraint object.  A shallow copy of a constraint (`copy(self)`, `copy.copy(c)`)
+    shares the dictionary: the copy - typically a variant with another operator, e.g. the result of invert() - reads and writes the same keys.
+    Constraint objects are duplicated by constructing them (or by a `__copy__` that gives the duplicate a cache of its own)."""
+    base = eng.cls("fandango.constraints.base", "GeneticBase")
+    fam = [base] + base.all_subclasses()
+    has_copy = {c.name for c in fam if "__copy__" in c.methods and any(isinstance(a, ast.Assign) and any(self_attr(t) == "cache" or (isinstance(t, ast.Attribute) and t.attr == "cache") for t in a.targets)
+                                                                      for a in walk_local(c.methods["__copy__"].node))}
+    n = 0
+    for c in fam:
+        for m in c.methods.values():
+            n += 1
+            for x in walk_local(m.node):
+                if isinstance(x, ast.Call) and ((isinstance(x.func, ast.Name) and x.func.id == "copy") or norm(x.func) == "copy.copy") and x.args and norm(x.args[0]) == "self" and c.name not in has_copy:
+                    chk.bad(rule, eng.relfile(m), x.lineno, m.fq, f"`{short(x, 40)}` in {m.qualname} duplicates a constraint by shallow copy",
+                            "the duplicate shares `cache` with the original: after `c.invert()` the constraint and its negation answer each other's questions from one memo - whichever "
+                            "judged a tree first decides the verdict of the other", keyparts=f"shallow-copy-of-constraint|{m.qualname}")
+    if n < 20:
+        raise AnalysisError(f"only {n} constraint methods scanned")
+    chk.ok(rule, "fandango.constraints.*", 0, f"{n} methods of {len(fam)} constraint classes: no constraint is duplicated by a shallow copy")
 
 
 def memo_by_reference_rule(chk: Check, eng: Engine, rule: str = "R11-f") -> None:
@@ -597,6 +667,8 @@ MUTANTS = [
     M("copy-returns-self", _FT, "    def __copy__(self) -> Fitness:\n        return ConstraintFitness(\n            solved=self.solved,\n            total=self.total,\n            success=self.success,\n            failing_trees=self.failing_trees[:],\n            suggestion=copy.deepcopy(self.suggestion),\n        )", "    def __copy__(self) -> Fitness:\n        return self", "R11-c"),
 ]
 MUTANTS += [
+    M("raising-constraint-skipped-from-then-on", _EV, "        for constraint in constraints:\n            try:\n                result = constraint.fitness(individual)\n", "        for constraint in constraints:\n            if id(constraint) in self._erroneous:\n                continue\n            try:\n                result = constraint.fitness(individual)\n", "R11-k"),
+    M("inverted-comparison-is-a-shallow-copy", "src/fandango/constraints/comparison.py", "    def invert(self) -> \"ComparisonConstraint\":\n", "    def invert(self) -> \"ComparisonConstraint\":\n        if self.lazy:\n            inverted = copy(self)\n            inverted._operator = self._operator.invert()\n            return inverted\n", "R11-l"),
     M("node-value-memoised-by-reference", "src/fandango/language/tree.py", "        aggregate = TreeValue.empty()\n        for child in self._children:\n            aggregate = aggregate.append(child.value())\n        return aggregate\n",
       "        if self._value_cache is None:\n            aggregate = TreeValue.empty()\n            for child in self._children:\n                aggregate = aggregate.append(child.value())\n            self._value_cache = aggregate\n        return self._value_cache\n", "R11-f",
       more=(("        self.hash_cache: Optional[int] = None\n", "        self.hash_cache: Optional[int] = None\n        self._value_cache: Optional[TreeValue] = None\n"),)),
